@@ -38,6 +38,14 @@ def gen_cases(tier, rng):
                 w = keyw + more + [flagw, pv]
                 cases.append('H:f=0 arg:v,values:%s:multi arg:f,flag:b0:init=0 arg:-:%s: %s exp:b0=1;%s=%s;%s=%s'
                              % (vk, pk, A.argv_tok(w), pk, pexp, vk, show))
+    # an exact long key that is a prefix of two (three) other long keys, defined before, between and after them, in
+    # every spelling of the value; the abbreviations that stay unique still work
+    import itertools as _it
+    for order in _it.permutations(['include', 'input', 'in']):
+        defs = ' '.join('arg:%s:i%d:' % (k, ['include', 'input', 'in'].index(k)) for k in order)
+        for w, exp in ((['--in', '42'], 'i0=0;i1=0;i2=42'), (['--in=42'], 'i0=0;i1=0;i2=42'), (['--inc', '7'], 'i0=7;i1=0;i2=0'),
+                       (['--inp=8', '--in', '9'], 'i0=0;i1=8;i2=9'), (['--include=1', '--input=2', '--in=3'], 'i0=1;i1=2;i2=3')):
+            cases.append('H:f=0 %s %s exp:%s' % (defs, A.argv_tok(w), exp))
     # a flag whose cardinality limit was removed may be repeated: it stays set, in every spelling
     for w in (['-v', '-v'], ['-vv'], ['-v', '--verbose'], ['-vcvc'], ['-v', '-c', '-v', '-v'], ['--verbose', '--verb', '-v', '-v']):
         nv = sum(x.count('v') if not x.startswith('--') else 1 for x in w)
